@@ -784,3 +784,29 @@ def check_C05(ctx):
             "decoupled; the real MlpgAdjust::create output of each, and of random instances with 1..60 states, durations 1..8, vector length 1..4, must satisfy "
             "|R c - r| <= tol row by row and carry the no-data marker exactly on unvoiced frames",
             {})
+
+
+# --------------------------------------------------------------------------- C07
+
+def check_C07(ctx):
+    q = ctx.quick()
+    mc(ctx, "Excitation", S("mc", "MC_Excitation.cfg" if q else "MC_Excitation_thorough.cfg"), S("mc", "MC_Excitation.tla"), workers=8)
+    counts = {}
+    for mode, n in (("exact", 150 if q else 4000), ("pitch", 60 if q else 2000), ("noise", 8 if q else 40), ("mixed", 40 if q else 1000)):
+        tpath = ctx.path("exc_%s.ndjson" % mode)
+        p = run_jbv(["exc-record", mode, ctx.seed, n, tpath], timeout=3600)
+        if p.returncode != 0:
+            raise ToolError("exc-record %s failed: %s" % (mode, p.stderr[-400:]))
+        trace_stage(ctx, mode, S("trace", "Trace_Excitation.cfg"), S("trace", "Trace_Excitation.tla"), tpath,
+                    reset_ev="reset" if mode == "exact" else "__none__", keyfn=lambda e, run, mode=mode: "excitation:%s:%s" % (mode, e.get("ev")), timeout=7200)
+        counts[mode] = n
+    ctx.assumptions += ["the filter is the identity for an all-zero spectrum (stage 0), so the Vocoder output is the excitation itself",
+                        "exact runs use periods P/Q (Q in {1,2,4}) and small frame periods so that the machine is followed in integers; ties branch",
+                        "noise: deterministic generator (fixed seed); bands |mean| <= 0.02, |var - 1| <= 0.03, |lag 1..5| <= 0.02 on >= 1e5 samples",
+                        "mixed excitation: pulses and noise taken from twin runs of the same vocoder without low-pass taps (voiced / unvoiced), all quantised to 2^-12"]
+    return ("model_checking",
+            "MC: pitch machine over all frame sequences of a small period set: impulse spacing floor/ceil(T0), one impulse per T0, linear glide reaching its target, "
+            "restart after unvoiced frames.  I->S: (a) exact runs validated sample by sample against the machine (hidden state pcur, cnt, inc; ties branch), "
+            "(b) realistic constant-F0 runs (20 Hz..rate/2 and beyond the clamps, rates 8k..96k, frame periods 40..480): spacing, height^2 = T0, count law, "
+            "(c) unvoiced noise statistics, (d) mixed excitation identity x = h*pulse + (delta-h)*noise for random odd tap counts 1..31",
+            counts)
